@@ -17,6 +17,7 @@ func init() {
 	register("C08", "cluster-member-replaced", c08Replaced)
 	register("C08", "cluster-settle-timeout-sole-instance", c08SettleTimeout)
 	register("C08", "cluster-settle-timeout-pair", c08SettleTimeout)
+	register("C08", "cluster-reload-while-email-in-flight", c08ReloadInflight)
 	register("C08", "cluster-oversized-log-entries", c08Oversized)
 	multiplicity["C08/cluster-oversized-log-entries"] = 2
 	register("C08", "cluster-peer-stops", c08PeerStops)
@@ -501,4 +502,76 @@ func c08Oversized(s *sc) {
 		return
 	}
 	s.count("oversized-entries-exactly-once-per-integration")
+}
+
+// c08ReloadInflight: healthy pair; the member at position 0 is reloaded while its delivery (SMTP: cannot be cancelled,
+// ends successfully) is in flight. The delivered notification must be logged and gossiped all the same: neither the
+// reloaded member (after its new dispatcher's group_wait) nor its peer (after its position wait) sends it again.
+func c08ReloadInflight(s *sc) {
+	sink, err := NewSink()
+	s.must(err, "sink")
+	defer sink.Close()
+	const gwS = 3 * time.Second       // longer than the delivery: the new dispatcher of am-a flushes after it ended
+	const smtpDelay = 1 * time.Second // shorter than the peer timeout: am-b looks the entry up after it was gossiped
+	sink.SMTPDelay(smtpDelay)
+	conf := Conf{Root: Route{Receiver: "r0", GroupBy: []string{"g"}, GW: gwS, GI: clusterGI, RI: time.Hour}, Receivers: []Recv{{Name: "r0", Email: true}}}
+	a := startMember(s, sink, "am-a", nil, 10*time.Second, conf)
+	b := startMember(s, sink, "am-b", []*member{a}, 10*time.Second, conf)
+	ms := []*member{a, b}
+	if !converged(s, ms, 12*time.Second) {
+		s.inconclusive("the pair did not report ready within 12s")
+		return
+	}
+	if !gossipHealthy(s, ms) {
+		return
+	}
+	// young alerts (startsAt ahead): every dispatcher, also the one built by the reload, waits its full group_wait
+	begin, end := time.Now().Add(8*time.Second), time.Now().Add(10*time.Minute)
+	tPost := time.Now()
+	postAll(s, ms, []AlertIn{{Labels: map[string]string{"alertname": "A", "g": "mail"}, StartsAt: &begin, EndsAt: &end}})
+	tPosted := time.Now()
+	mails := func(reqs []Req) []Req {
+		var out []Req
+		for _, r := range reqs {
+			if r.Kind == "email" && r.Msg.Status == "firing" {
+				out = append(out, r)
+			}
+		}
+		return out
+	}
+	if !sink.WaitFor(tPost.Add(gwS+slack+late), func(reqs []Req) bool { return len(mails(reqs)) > 0 }) {
+		s.violate("cluster-no-notification", "no instance sent the mail within group_wait+%s", slack+late)
+		return
+	}
+	tR0 := time.Now()
+	if err := a.in.Reload(); err != nil {
+		s.violate("valid-reload-rejected", "Reload of am-a failed: %v", err)
+		return
+	}
+	tReloaded := time.Now()
+	sink.WaitFor(time.Now().Add(smtpDelay+slack), func(reqs []Req) bool { m := mails(reqs); return len(m) > 0 && !m[0].Done.IsZero() })
+	m0 := mails(sink.Reqs())[0]
+	s.logf("mail in flight from %.2fs to %.2fs after the post; am-a reloaded at %.2fs", m0.T.Sub(tPost).Seconds(), m0.Done.Sub(tPost).Seconds(), tR0.Sub(tPost).Seconds())
+	switch {
+	case m0.Done.IsZero() || !m0.Done.After(tR0):
+		s.inconclusive("the slow delivery was not in flight when the reload began")
+		return
+	case m0.Done.Add(700 * time.Millisecond).After(tPosted.Add(gwS + peerTimeout)):
+		s.inconclusive("the delivery did not end well before the peer's log lookup (group_wait + peer timeout after the post)")
+		return
+	case m0.Done.Add(700 * time.Millisecond).After(tReloaded.Add(gwS)):
+		s.inconclusive("the delivery did not end well before the first flush of the reloaded member")
+		return
+	}
+	// am-b looks up at post+group_wait+peer_timeout; am-a's new dispatcher flushes group_wait after the reload
+	time.Sleep(time.Until(tReloaded.Add(gwS + peerTimeout + 1500*time.Millisecond)))
+	if k := len(mails(sink.Reqs())); k != 1 {
+		var when []string
+		for _, m := range mails(sink.Reqs()) {
+			when = append(when, fmt.Sprintf("%.2fs", m.T.Sub(tPost).Seconds()))
+		}
+		s.violate("cluster-duplicate-notification", "healthy pair; am-a (position 0) was reloaded while its mail was in flight; the mail was delivered (250 at %.2fs) and then sent %d times in all, at %v after the post (am-b's lookup is due at ~%.1fs, am-a's first flush after the reload at ~%.1fs)", m0.Done.Sub(tPost).Seconds(), k, when, (gwS + peerTimeout).Seconds(), tReloaded.Add(gwS).Sub(tPost).Seconds())
+		return
+	}
+	s.count("delivered-once-despite-reload-during-delivery")
 }
